@@ -16,6 +16,8 @@ Lemma empty_bytes_truthy o : empty_bytes o = true -> truthy_b o = None.
 Proof. unfold empty_bytes, truthy_b, is_none. destruct (truthy o); [discriminate | reflexivity]. Qed.
 
 (* ================================================================== stage 2: tensors *)
+Ltac tproj := cbn [t_dims t_dtype t_name t_doc t_loc t_raw t_strs t_other t_ext t_meta].
+
 Lemma tensor_roundtrip t :
   wf_tensor t = true ->
   exists it, deser_tensor t = Ok it
@@ -48,7 +50,7 @@ Proof.
                                         :: opt_entry k_offset off ++ opt_entry k_length len)
                                      (ksort (dict_of meta)))
               = norm_tensor (mkTensorP dims dt name doc loc raw [] [] ext meta)).
-    { intros nm Hnm. unfold norm_tensor. simpl. rewrite !truthy_idem, Hnm, Hs, H1, (ksort_dict_of meta Hmeta).
+    { intros nm Hnm. unfold norm_tensor. tproj. rewrite !truthy_idem, Hnm, Hs, H1, (ksort_dict_of meta Hmeta).
       f_equal. destruct loc as [l|]; simpl in *; subst; reflexivity. }
     split; [apply Hcore; reflexivity|].
     split; [intros n Hne E; simpl; apply Hcore; apply Hn; assumption|].
@@ -62,15 +64,15 @@ Proof.
                 norm_tensor (mkTensorP dims (Some STRING_DT) (truthy nm) (truthy doc) None None strs [] []
                                        (ksort (dict_of meta)))
                 = norm_tensor (mkTensorP dims dt name doc loc raw strs [] [] meta)).
-      { intros nm Hnm. unfold norm_tensor. simpl. rewrite !truthy_idem, Hnm, H2, (ksort_dict_of meta Hmeta).
+      { intros nm Hnm. unfold norm_tensor. tproj. rewrite !truthy_idem, Hnm, H2, (ksort_dict_of meta Hmeta).
         unfold some_dflt. simpl. rewrite Estr, H. reflexivity. }
       split; [apply Hcore; reflexivity|].
       split; [intros n Hne E; simpl; apply Hcore; apply Hn; assumption|].
       repeat split. simpl. symmetry. exact Estr.
     + (* proto-backed tensor *)
       eexists. split; [reflexivity|].
-      split; [unfold norm_tensor; simpl; rewrite (ksort_dict_of meta Hmeta); reflexivity|].
-      split; [intros n Hne E; unfold norm_tensor; simpl; rewrite (ksort_dict_of meta Hmeta), (Hn n Hne E); reflexivity|].
+      split; [unfold norm_tensor, ser_tensor; tproj; rewrite (ksort_dict_of meta Hmeta); reflexivity|].
+      split; [intros n Hne E; unfold norm_tensor, ser_tensor, itensor_set_name; tproj; rewrite (ksort_dict_of meta Hmeta), (Hn n Hne E); reflexivity|].
       repeat split.
 Qed.
 
@@ -165,8 +167,8 @@ Section Attrs.
     = map (fun s : bool * list N => (true, snd s)) l.
   Proof. intros _. rewrite !map_map. reflexivity. Qed.
 
-  Theorem attr_roundtrip allow_ref rg a :
-    wf_attr allow_ref rg wfg a = true ->
+  Theorem attr_roundtrip allow_ref a :
+    wf_attr allow_ref wfg a = true ->
     exists ia, deser_attr dg empty_graph scopes a = Ok ia
                /\ ia_name ia = dflt [] (a_name a)
                /\ (match ia_val ia with IARef _ _ => truthy (a_ref a) <> None | IAUndef => False | _ => truthy (a_ref a) = None end)
